@@ -331,6 +331,17 @@ fn expected_dqe(n: u64) -> Vec<(String, Option<Value>)> {
         ("vd[6]".into(), Some(s(105))),
         ("vd[7]".into(), None),
         ("vd[1..3]".into(), Some(json!(["100", "101"]))),
+        // an index applied to a slice counts from the start of the slice
+        ("vd[1..3][0]".into(), Some(s(100))),
+        ("vd[1..3][1]".into(), Some(s(101))),
+        ("vd[1..3][2]".into(), None),
+        ("vd[2..][0]".into(), Some(s(101))),
+        ("arr[2..][0]".into(), Some(s(30))),
+        ("arr[1..3][1]".into(), Some(s(30))),
+        ("arr[1..3][2]".into(), None),
+        ("arr[1..][1..][0]".into(), Some(s(30))),
+        ("arr[..2][1]".into(), Some(s(20))),
+        ("vv[0][1..][0]".into(), Some(s(2))),
         ("hm[7]".into(), if n > 1 { Some(s(-1)) } else { None }),
         (format!("hm[{}]", last * 7), Some(s(-last))),
         ("hm[3]".into(), None),
